@@ -582,10 +582,50 @@ def flatten_starred_displays(tree):
     return count[0]
 
 
+def merge_dict_updates(tree):
+    """N18: `d = {...}` directly followed by `d.update(e)` statements is `d = {..., **e}` (a later entry overrides an earlier one in both
+    forms).  Only for a single positional mapping argument that does not mention d."""
+    count = [0]
+
+    def rec(stmts):
+        out = []
+        for s in stmts:
+            for fld in ('body', 'orelse', 'finalbody'):
+                sub = getattr(s, fld, None)
+                if isinstance(sub, list) and sub and isinstance(sub[0], ast.stmt):
+                    setattr(s, fld, rec(sub))
+            if isinstance(s, ast.Try):
+                for h in s.handlers:
+                    h.body = rec(h.body)
+            prev = out[-1] if out else None
+            if (isinstance(s, ast.Expr) and isinstance(s.value, ast.Call) and isinstance(s.value.func, ast.Attribute) and s.value.func.attr == 'update'
+                    and isinstance(s.value.func.value, ast.Name) and len(s.value.args) == 1 and not s.value.keywords
+                    and isinstance(prev, ast.Assign) and len(prev.targets) == 1 and isinstance(prev.targets[0], ast.Name) and prev.targets[0].id == s.value.func.value.id
+                    and isinstance(prev.value, ast.Dict)
+                    and prev.targets[0].id not in {n.id for n in ast.walk(s.value.args[0]) if isinstance(n, ast.Name)}
+                    and not isinstance(s.value.args[0], (ast.List, ast.Tuple, ast.ListComp, ast.GeneratorExp, ast.Call))):
+                arg = s.value.args[0]
+                if isinstance(arg, ast.Dict):
+                    prev.value.keys.extend(arg.keys)
+                    prev.value.values.extend(arg.values)
+                else:
+                    prev.value.keys.append(None)
+                    prev.value.values.append(arg)
+                count[0] += 1
+                continue
+            out.append(s)
+        return out
+    for node in ast.walk(tree):
+        if isinstance(node, (ast.FunctionDef, ast.AsyncFunctionDef)):
+            node.body = rec(node.body)
+    return count[0]
+
+
 def normalize(tree):
     n = Normalizer()
     tree = n.visit(tree)
     n.counts['generators_to_loops'] = generators_to_loops(tree)
+    n.counts['dict_updates_merged'] = merge_dict_updates(tree)
     n.counts['loop_to_comprehension'] = loops_to_comprehensions(tree)
     n.counts['enumerate_dropped'] = drop_unused_enumerate(tree)
     return tree, n.counts
